@@ -76,7 +76,9 @@ PROPS = {
     "C15": dict(functions=[], lemmas=[], bounded="C15", level="exploration"),
     "C16": dict(functions=[], lemmas=[], bounded="C16", level="exploration"),
     "C19": dict(functions=[], lemmas=[], bounded="C19", level="exploration"),
-    # C20: only the leaf part of gen_data (primitives, fixed, enum, unions, references) is under contract
-    "C20": dict(functions=[("fastavro/utils.py", r"(_randbytes|_gen_utf8)", "default"), ("fastavro/utils.py", r"gen_data", "leafy")],
-                lemmas=["any_valid_at", "leafy_at", "all_str_at", "wf_branch_at"], bounded="C20", level="exploration"),
+    # C20: gen_data for every schema without logical types; counts / logical types / writer acceptance bounded
+    "C20": dict(functions=[("fastavro/utils.py", r"(_randbytes|_gen_utf8|gen_data)", "default")],
+                lemmas=["any_valid_at", "genok_at", "all_str_at", "wf_branch_at", "allvalid_r_append", "allvalid_bridge",
+                        "allstr_r_append", "allstr_bridge", "allvalid_r_replace", "map_step", "nth_of_update", "nth_at_update", "nth_concat_left", "nth_concat_right", "split_at", "dset_other",
+                        "dset_same", "rec_frame", "rec_bridge", "not_among_at"], bounded="C20", level="other"),
 }
